@@ -11,11 +11,30 @@ import (
 	"verif/props/reg"
 )
 
-// go test -run TestDbg with C09_CASE=<idx>: prints the fault-free trace tail
+// C09_CASE=<idx> [C09_WHAT=unfinished|base] go test -run TestDbg
 func TestDbg(t *testing.T) {
 	idx, _ := strconv.Atoi(os.Getenv("C09_CASE"))
 	rng := rand.New(rand.NewSource(reg.CaseSeed(1, idx)))
 	r := mon.NewReport("C09", "quick", 1, 0)
+	if os.Getenv("C09_WHAT") == "unfinished" {
+		n := 0
+		debugHook = func(x *exec) {
+			if x.sig["end:unfinished"] && n < 2 {
+				n++
+				fmt.Println("=== UNFINISHED", x.fault.String())
+				fmt.Println(x.desc["script"])
+				tr := x.trace
+				for _, l := range tr {
+					if len(l) > 300 {
+						l = l[:300]
+					}
+					fmt.Println(l)
+				}
+			}
+		}
+		run(r, "quick", idx, rng)
+		return
+	}
 	sc := scen{Idx: idx, WorldSeed: rng.Int63(), ScriptSeed: rng.Int63()}
 	x := execute(r, sc, nil)
 	if x == nil {
